@@ -183,7 +183,7 @@ class Crate:
         for f in self.fns:
             self._by_path.setdefault(f["path"], []).append(f)
         self.mir_by_path = {m["path"]: m for m in self.mir}
-        self.adt_by_path = {a["path"]: a for a in self.adts}
+        self.adt_by_path = _MovedLookup({a["path"]: a for a in self.adts})
 
     def S(self, i):
         if i is None:
@@ -209,11 +209,56 @@ class Crate:
                     self._by_norm.setdefault(self._LT.sub("'_", f["path"]), []).append(f)
             fs = self._by_norm.get(self._LT.sub("'_", path))
         if not fs:
+            fs = self._moved_fn(path)
+        if not fs:
             return None
         return fs[0]
 
+    def _moved_fn(self, path):
+        """A *free* function that was moved to another module of the same crate keeps its identity when its name is unique among
+        the crate's free functions (outside test modules). Methods are addressed through their type, which has its own rule."""
+        if "<" in path or path.count("::") < 2:
+            return None
+        crate, name = path.split("::")[0], path.rsplit("::", 1)[-1]
+        if not hasattr(self, "_free_by_name"):
+            self._free_by_name = {}
+            for f in self.fns:
+                p = f["path"]
+                if "<" in p or "{" in p or "::tests::" in p or "::test::" in p or f.get("self_ty") or f.get("impl_trait"):
+                    continue
+                self._free_by_name.setdefault((p.split("::")[0], p.rsplit("::", 1)[-1]), []).append(f)
+        c = self._free_by_name.get((crate, name), [])
+        return c if len(c) == 1 else None
+
     def fns_where(self, pred):
         return [f for f in self.fns if pred(f)]
+
+
+class _MovedLookup(dict):
+    """path -> ADT. A type that was moved to another module of the same crate keeps its identity when no other type of the crate
+    has its name: a lookup by the old path finds it (so does `in` / `get`)."""
+
+    def _alt(self, k):
+        if not isinstance(k, str) or "::" not in k:
+            return None
+        crate, name = k.split("::")[0], k.rsplit("::", 1)[-1]
+        c = [p for p in dict.keys(self) if p.split("::")[0] == crate and p.rsplit("::", 1)[-1] == name and "::tests::" not in p]
+        return c[0] if len(c) == 1 else None
+
+    def __missing__(self, k):
+        a = self._alt(k)
+        if a is None:
+            raise KeyError(k)
+        return dict.__getitem__(self, a)
+
+    def __contains__(self, k):
+        return dict.__contains__(self, k) or self._alt(k) is not None
+
+    def get(self, k, default=None):
+        if dict.__contains__(self, k):
+            return dict.__getitem__(self, k)
+        a = self._alt(k)
+        return dict.__getitem__(self, a) if a is not None else default
 
 
 _CRATES = {}
